@@ -2,6 +2,8 @@
 Decided clause: no unjustified explicit abort construct reachable from a compression entry point;
 raw copies to/from caller buffers are bounded by min(len, avail); forbid(unsafe_code) stays on the
 match-finding drivers."""
+import re
+
 from .. import mir, sig, shape, atoms, abort, abort_table, flow
 from ..core import where
 from ..ctx import prog, Z, SYS
@@ -173,7 +175,12 @@ def guards(ck, P):
                       "copy_and_initialize does not index the window slice with the range before the raw copy (dst %s, count %s)"
                       % (mir.fmt(dst, wc)[:100], mir.fmt(cnt, wc)[:60]), where(wc, cs[0].line))
             ck.call_sites += 1
-    # 6 get_dictionary
+    get_dictionary_guard(ck, P, R)
+
+
+def get_dictionary_guard(ck, P, R):
+    """deflateGetDictionary copies min(strstart + lookahead, w_size) bytes (one window at most) ending at the current
+    position, and returns that count"""
     gd = P.fn(Z + "deflate::get_dictionary")
     if ck.anchor("fn deflate::get_dictionary", gd):
         ck.use_fn(gd)
@@ -186,6 +193,11 @@ def guards(ck, P):
             ss = shape.dominating_sigs(gd, cs[0].bb)
             ck.decide(any(s.kind == "truth" and s.truth is False and "dictionary" in s.names for s in ss), R, "deflate::get_dictionary:null",
                       "skipped for a null destination", "get_dictionary copies without testing the destination for null", where(gd, cs[0].line))
+            # source = window + (strstart + lookahead - len): the bytes that end at the current position
+            okoff = mir.mentions_field(src, "strstart") and mir.mentions_field(src, "lookahead") and \
+                any(x[0] == "bin" and x[1] in ("Sub", "SubWithOverflow") for x in mir.walk(src))
+            ck.decide(okoff, R, "deflate::get_dictionary:source", "source = window + (strstart + lookahead - len)",
+                      "get_dictionary copies from %s: not the bytes that end at the current position" % mir.fmt(src, gd)[:120], where(gd, cs[0].line))
             ck.call_sites += 1
 
 
@@ -209,6 +221,97 @@ def lint(ck, P):
               "unsafe_op_in_unsafe_fn is no longer denied (e.g. %s)" % (bad[0].path if bad else ""))
 
 
+def _uses_of(fn, loc):
+    """(bb, kind, node) for every operand reading the whole local `loc`"""
+    out = []
+
+    def scan(node, bb, ctx):
+        if isinstance(node, dict):
+            if node.get("l") == loc and node.get("k") in ("copy", "move") and not node.get("p"):
+                out.append((bb, ctx))
+            for k, v in node.items():
+                if k != "lhs":
+                    scan(v, bb, ctx)
+        elif isinstance(node, list):
+            for v in node:
+                scan(v, bb, ctx)
+    for bi in fn.live:
+        b = fn.blocks[bi]
+        for st in b["s"]:
+            scan(st.get("rv"), bi, ("stmt", st))
+        scan({k: v for k, v in b["t"].items() if k != "dest"}, bi, ("term", b["t"]))
+    return out
+
+
+def signed_offsets(ck, P):
+    """block_start is signed and becomes negative when fill_window slides the window while a block is open.  Its use
+    as a window offset (`block_start as usize`) in any function that can run in an algorithm which calls fill_window
+    must therefore be conditional on `block_start >= 0` (dominating test, or `(block_start >= 0).then_some(..)`)."""
+    R = "GUARD/signed-offset"
+    FIELD = "block_start"
+    # who can make it negative: a subtraction from the field that is not guarded by a comparison of the field
+    neg = set()
+    for f in P.fns.values():
+        if f.crate != "zlib_rs" or f.is_promoted:
+            continue
+        for bi, fp, root, rv, st in f.field_writes():
+            if fp[-1] != FIELD:
+                continue
+            e = mir.strip_casts(rv)
+            sub = (e[0] == "bin" and e[1] in ("Sub", "SubWithOverflow")) or \
+                  (e[0] == "call" and isinstance(e[1], str) and re.search(r"::(wrapping_sub\w*|sub|checked_sub\w*)$", e[1]))
+            if not sub or not mir.mentions_field(e, FIELD):
+                continue
+            guarded = any(FIELD in sig.sig(a, f).names and sig.sig(a, f).rel in ("Le", "Lt") for a in f.dominating_atoms(bi))
+            if not guarded:
+                neg.add(f.path)
+    if not ck.anchor("a writer that can make block_start negative (fill_window)", bool(neg)):
+        return
+    roots = sorted(f.path for f in P.fns.values() if re.search(r"deflate::algorithm::\w+::deflate_\w+$", f.path) and not f.is_promoted)
+    ck.floor(R + ":algorithms", len(roots), 6)
+    exposed = set()
+    for r in roots:
+        reach = P.reachable_from([r])
+        if reach & neg:
+            exposed |= reach
+    n = 0
+    for f in sorted(P.fns.values(), key=lambda f: f.path):
+        if f.crate != "zlib_rs" or f.is_promoted or f.path not in exposed:
+            continue
+        for bi, si, lhs, rv, st in f.assignments():
+            if not (rv.get("k") == "cast" and rv.get("ty") == "usize" and rv.get("from_ty") == "isize") or lhs.get("p"):
+                continue
+            e = f.rvalue_expr(rv)
+            inner = mir.strip_casts(e)
+            root, fp = mir.field_path(inner)
+            if not fp or fp[-1] != FIELD:
+                continue
+            n += 1
+            ck.use_fn(f)
+            t = lhs["l"]
+            bad_uses = []
+            for ub, (kind, node) in _uses_of(f, t):
+                if any(FIELD in sig.sig(a, f).names and sig.sig(a, f).rel == "Le" and 0 in sig.sig(a, f).lo_consts
+                       for a in f.dominating_atoms(ub)):
+                    continue
+                if kind == "term" and node.get("k") == "call":
+                    ce = f.call_expr(node)
+                    if isinstance(ce[1], str) and ce[1].endswith("bool::then_some") and len(ce[2]) == 2:
+                        c0 = mir.strip_casts(ce[2][0])
+                        if c0[0] == "bin" and c0[1] == "Ge" and mir.mentions_field(c0[2], FIELD) and f.const_of(c0[3]) == 0:
+                            continue
+                        if c0[0] == "bin" and c0[1] == "Le" and mir.mentions_field(c0[3], FIELD) and f.const_of(c0[2]) == 0:
+                            continue
+                bad_uses.append(ub)
+            ck.decide(not bad_uses, R, "%s:%s-as-usize" % (f.path.replace(Z, ""), FIELD),
+                      "used only under block_start >= 0",
+                      "%s turns the signed block_start into a window offset without a `block_start >= 0` condition; the field is "
+                      "negative after fill_window (%s) slid the window over an open block, so the offset is out of range "
+                      "(abort in a slice index, or a stored block emitted from the wrong bytes)"
+                      % (f.path.replace(Z, ""), ", ".join(sorted(x.replace(Z, "") for x in neg))), where(f, st.get("line")))
+    ck.floor(R, n, 1)
+
+
 def run(ck):
     P = prog("K1")
     ck.configs.add("K1")
@@ -217,6 +320,7 @@ def run(ck):
     api = {f.path for f in P.fns.values() if f.crate == "zlib_rs" and f.j.get("vis") == "Public" and P.callers_of(f.path) & set(roots)}
     abort.check(ck, P, roots, "ABORT/compress", abort_table.JUSTIFIED, api_fns=api, label="compression")
     guards(ck, P)
+    signed_offsets(ck, P)
     lint(ck, P)
     ck.assumptions += ["rustc MIR, lint levels", "justified-abort table confirmed by reading", "host target x86_64; K1"]
 
